@@ -305,6 +305,7 @@ func opUpDown(st *state, args []string) []string {
 	}()
 	var results []string
 	started := false
+	dead := 0
 	for _, c := range args[4] {
 		done := make(chan error, 1)
 		switch c {
@@ -323,6 +324,22 @@ func opUpDown(st *state, args []string) []string {
 			} else {
 				results = append(results, "0")
 				started = c == 'S'
+				if started {
+					// a receiver that reports it has started must decode the traffic that keeps arriving
+					u.mu.Lock()
+					before := len(u.decoded)
+					u.mu.Unlock()
+					alive := false
+					for k := 0; k < 200 && !alive; k++ {
+						time.Sleep(5 * time.Millisecond)
+						u.mu.Lock()
+						alive = len(u.decoded) > before
+						u.mu.Unlock()
+					}
+					if !alive {
+						dead++
+					}
+				}
 			}
 		case <-time.After(5 * time.Second):
 			close(stopTraffic)
@@ -354,7 +371,7 @@ func opUpDown(st *state, args []string) []string {
 	u.mu.Lock()
 	corrupt := u.corrupt
 	u.mu.Unlock()
-	return []string{fmt.Sprintf("res ok results=%s corrupt=%d leak=%d rebind=%d", strings.Join(results, ","), corrupt, leak, rebind)}
+	return []string{fmt.Sprintf("res ok results=%s corrupt=%d leak=%d rebind=%d dead=%d", strings.Join(results, ","), corrupt, leak, rebind, dead)}
 }
 
 // drain <sockets> <workers> <queue> <k>: k datagrams are read and queued behind gated decoders, Stop is
